@@ -307,7 +307,11 @@ func Check(r *ev.Run, replay string) {
 		bound, maxK, limit = 2, 24, 20000
 	}
 	children := childPrefixes(r.Thorough())
-	r.Sharded(16, func(shard, nShards int) {
+	shards := 16
+	if r.Thorough() {
+		shards = 1024 // each worker keeps the goroutines of abandoned executions alive: many small workers
+	}
+	r.Sharded(shards, func(shard, nShards int) {
 		total, points, cases, idx := 0, 0, 0, 0
 		for ci, ch := range children {
 			for mi, mn := range mains {
@@ -332,8 +336,11 @@ func Check(r *ev.Run, replay string) {
 						c := caseT{ch, mn, k, mode}
 						sc := c.scenario()
 						b := bound
-						if mode != "" && b > 1 {
-							b = 1 // the reused-VM modes with one deviation in both tiers
+						if b > 1 && (mode != "" || k > 8) {
+							b = 1 // thorough: two deviations for the fresh-VM scenarios up to instant 8, one beyond and for the reused-VM modes
+						}
+						if mode != "" && k > 12 {
+							continue
 						}
 						st := dsched.Explore(sc, b, limit)
 						cases++
@@ -379,7 +386,7 @@ func Check(r *ev.Run, replay string) {
 func finish(r *ev.Run, bound, maxK int) {
 	r.Set("deviation_bound", bound)
 	r.Set("max_cancellation_instant", maxK)
-	r.Set("rule", fmt.Sprintf("child prefixes x main shapes x cancellation instants 0..%d (the canceller's gate opens when the main task has taken k scheduling points = VM instructions, or when the system is idle) x every schedule with at most %d deviations (delayed cancel, preempted watcher/child/main; the reused-VM modes - RunCode and Call on a VM that already ran with the same context - with at most 1); fairness 4 bounds spinning; horizon 60 decisions after the evaluation returned", maxK, bound))
+	r.Set("rule", fmt.Sprintf("child prefixes x main shapes x cancellation instants 0..%d (the canceller's gate opens when the main task has taken k scheduling points = VM instructions, or when the system is idle) x every schedule with at most %d deviations (delayed cancel, preempted watcher/child/main; thorough: 2 up to instant 8 and 1 beyond; the reused-VM modes - RunCode and Call on a VM that already ran with the same context - with at most 1 and up to instant 12); fairness 4 bounds spinning; horizon 60 decisions after the evaluation returned", maxK, bound))
 }
 
 func signature(ch, mn shape, v string) string {
